@@ -126,7 +126,7 @@ PROP = {
             "1.00000x and 9.999995 patterns and magnitudes over 580 decades of either sign, per-column unit factors 1e-30..1e30 or none, 0..3 header lines containing numeric tokens; "
             "Export_List/Export_Table/Export_Function (both overloads) read back by Import_List/Import_Table; six In_Units overloads with and without rounding; the unit table built by "
             "g++ -O0, g++ -O2, clang++ -O0, clang++ -O2",
-    "floors": {"quick": {"cases": 9000, "distinct_nontrivial": 4000,
+    "floors": {"quick": {"cases": 45000, "distinct_nontrivial": 35000,
                          "clauses": {"table-values-read-back-to-six-digits": 3500, "list-values-read-back-to-six-digits": 1100, "function-values-read-back-to-six-digits": 550,
                                      "in-units-undoes-multiplication-by-the-unit": 3800, "derived-unit-equals-its-defining-product": 40,
                                      "cfg-unit-constant-finite-and-non-zero": 450, "cfg-derived-unit-equals-its-defining-product": 200,
